@@ -21,6 +21,7 @@ import TypVerif.Drv.C14
 import TypVerif.Drv.C15
 import TypVerif.Drv.C04conc
 import TypVerif.Drv.C04inv
+import TypVerif.Drv.C09conc
 /-
 typdriver <Cxx> : reads annotated harness lines on stdin, prints one line per non-ok input line and a summary.
 Verdicts (DESIGN §4A):  cex  = implementation differs from the specification (property fails on this input)
@@ -52,7 +53,8 @@ def judges : List (String × Judge) := [
   ("C14", TypVerif.Drv.C14.judge),
   ("C15", TypVerif.Drv.C15.judge),
   ("C04conc", TypVerif.Drv.C04conc.judge),
-  ("C04inv", TypVerif.Drv.C04inv.judge)
+  ("C04inv", TypVerif.Drv.C04inv.judge),
+  ("C09conc", TypVerif.Drv.C09conc.judge)
 ]
 
 structure DAcc where
